@@ -107,6 +107,25 @@ func roundTrip(t *core.T, sig string, src string, pol *cedar.Policy, desc func()
 	if text2 := back.MarshalCedar(); !bytes.Equal(text, text2) {
 		t.Fail("not-a-fixpoint:"+sig, in(), string(text), string(text2))
 	}
+	// what MarshalCedar / MarshalJSON hand out belongs to the caller: overwriting it changes
+	// nothing about the policy or about later renderings
+	keep := string(text)
+	for k := range text {
+		text[k] = '#'
+	}
+	if js, err := pol.MarshalJSON(); err == nil {
+		keepJS := string(js)
+		for k := range js {
+			js[k] = '#'
+		}
+		if js2, _ := pol.MarshalJSON(); string(js2) != keepJS {
+			t.Fail("returned-bytes-alias-internal-state:MarshalJSON:"+sig, desc(), keepJS, string(js2))
+		}
+	}
+	if again := string(pol.MarshalCedar()); again != keep {
+		t.Fail("returned-bytes-alias-internal-state:MarshalCedar:"+sig, desc(), keep, again)
+	}
+	text = []byte(keep)
 	t.AddStates(1)
 	t.AddTrans(int64(len(envs)))
 }
